@@ -94,11 +94,13 @@ func checkC08(p *Prog, r *Report) {
 
 func c08Caps(p *Prog, r *Report, x *Exec) {
 	r.Rule("C08.R1", "caps on potential ET: every store of the day's potential ET by an ET-method arm is followed, on every path, by a cap store whose constant is not above the property's cap (0.65 cm under a crop, 0.6 cm on bare soil) and whose guards do not single out a method; the evaporation share is capped at 0.65 before use; every computed reference ET is floored at 0 before it is used; actual evaporation is exactly capped share × reduction factor", 12)
-	var stores, caps []*Event
+	var stores, caps, floors []*Event
 	for _, e := range x.Events {
 		if e.Kind == "assign" && e.Root == "VERDU" {
 			if isCapStore(e) {
 				caps = append(caps, e)
+			} else if isFloorStore(e) && e.Val.IsZero() {
+				floors = append(floors, e)
 			} else {
 				stores = append(stores, e)
 			}
@@ -153,6 +155,36 @@ func c08Caps(p *Prog, r *Report, x *Exec) {
 			}
 		}
 		r.Ob("arm:VERDU", p.Pos(s.Pos), covered, fmt.Sprintf("potential ET computed here (%s) is capped on every path afterwards: %v", clip(strings.Join(methodKeys(sk), " ; "), 120), covered))
+		// non-negative: either the arm's value is a product of the floored reference ET, the crop coefficient and a
+		// positive constant, or a floor at 0 follows on every path whose guards do not single out a method
+		nonneg, how := false, ""
+		if t := s.Val.single(); t != nil && t.C.Sign() > 0 {
+			all := len(t.M) > 0
+			for _, f := range t.M {
+				if !(f.E >= 1 && (f.A.Root == "GlobalVarsMain.ET0" || f.A.Root == "GlobalVarsMain.FKC" || f.A.Root == "GlobalVarsMain.FKB")) {
+					all = false
+				}
+			}
+			if all {
+				nonneg, how = true, "floored reference ET × crop coefficient × positive constant"
+			}
+		}
+		if !nonneg {
+			for _, f := range floors {
+				if f.Seq > s.Seq && subset(branchKeys(f, f.Old.Sub(f.Val)), sk) {
+					used := false
+					for _, u := range x.Events {
+						if u.Kind == "assign" && u.Seq > s.Seq && u.Seq < f.Seq && u.Root != "VERDU" && u.Val.MentionsRoot("VERDU") && subset(allNonLoopKeys(u), sk) {
+							used = true
+						}
+					}
+					if !used {
+						nonneg, how = true, "floored at 0 at "+p.Pos(f.Pos)+" before the value is used"
+					}
+				}
+			}
+		}
+		r.Ob("nonneg:VERDU", p.Pos(s.Pos), nonneg, fmt.Sprintf("potential ET computed here (%s) cannot be negative: %v %s", clip(strings.Join(methodKeys(sk), " ; "), 120), nonneg, how))
 	}
 	// evaporation share cap
 	var eta *Event
